@@ -107,13 +107,12 @@ template< class T> template< class... Args>
    T& Singleton< T>::instance( Args&&... args)
 {
 
+   // always take the lock: an unlocked first check of the (non-atomic) pointer
+   // is a data race with the thread that creates the object
+   const std::lock_guard< std::mutex>  lg( mMutex);
    if (mpObject.get() == nullptr)
    {
-      const std::lock_guard< std::mutex>  lg( mMutex);
-      if (mpObject.get() == nullptr)
-      {
-         mpObject.reset( new T( std::forward< Args>( args)...));
-      } // end if
+      mpObject.reset( new T( std::forward< Args>( args)...));
    } // end if
 
    return *mpObject;
